@@ -224,3 +224,63 @@ Example c15_exclusive_drops_value :
   map (fun log => fst (get_values (crun true (map OCall log)))) (subs (run u h)) = [Ok []] /\
   map (fun log => fst (get_values (crun false (map OCall log)))) (subs (run u h)) = [Ok [7]].
 Proof. vm_compute. repeat split; reflexivity. Qed.
+
+(* ---------------------------------------------------------------- round 4 *)
+(* (All theorems above quantify over histories that may contain `Batch` events: several changes arriving in ONE
+   watch response, handled one after the other in order.) A batch reaches every listener as the calls of its
+   events, in the order of the response, once per open stream -- so c15_converges / c15_subscribers_agree hold
+   across delete-then-put and put-then-delete of one key inside a response. *)
+Theorem c15_batch_in_order : forall u h items,
+  subs (run u (h ++ [Batch items])) =
+  map (fun l => l ++ concat (repeat (map bcall (filter (fun b => u (bkey b)) items)) (nwatch (run u h))))
+      (subs (run u h)).
+Proof. exact batch_reaches. Qed.
+Print Assumptions c15_batch_in_order.
+
+Example c15_batch_restart :
+  let u := fun _ : key => true in
+  (* an instance restarting: its key is deleted and put again within one response; and the converse *)
+  let h := [Subscribe [] [] []; Put 1 7 true; Put 2 8 true; Batch [BDel 1; BPut 1 7; BPut 3 8; BDel 2]; Subscribe [] [] [];
+            Batch [BPut 2 8; BDel 2]] in
+  synced u h = true /\ consistent (fun k => if Nat.eqb k 1 then 7 else 8) h /\
+  map (fun log => fst (get_values (crun false (map OCall log)))) (subs (run u h)) = [Ok [8; 7]; Ok [8; 7]] /\
+  map (fun log => mapping (crun false (map OCall log))) (subs (run u h)) = [[(3, 8); (1, 7)]; [(1, 7); (3, 8)]].
+Proof. split; [reflexivity|]. split; [repeat constructor|]. vm_compute. split; reflexivity. Qed.
+
+(* Several prefixes subscribed on one cluster (mrun = one single-prefix cluster per prefix over the same store and
+   connection events): a reload re-reads and re-watches EVERY prefix that has a listener. *)
+Theorem c15_every_prefix_reloaded : forall us h oa od i, subs (mrun us h i) <> [] ->
+  synced (us i) (project i (h ++ [MEv (Reload oa od)])) = true /\
+  exists m, cvals (mrun us (h ++ [MEv (Reload oa od)]) i) = Some m /\
+            forall k, kget k m = if us i k then kget k (etcd (mrun us (h ++ [MEv (Reload oa od)]) i)) else None.
+Proof. exact every_prefix_reloaded. Qed.
+Print Assumptions c15_every_prefix_reloaded.
+
+(* The publisher (register; keep-alive loss -> revoke + re-register under a new lease, any number of times;
+   Pause / Resume / Stop), against an etcd with leases: whenever it is not active NO key of it remains, and while it
+   is active exactly its one key does, attached to the lease p.lease that Stop/Pause will revoke. *)
+Theorem c15_publisher_unregisters : forall id v ops,
+  let s := prun id v ops in
+  match p_mode s with
+  | PActive => p_store s = [(full_key id (p_lease s), p_lease s)] /\
+               forall k', kget k' (spec_etcd (p_events s)) = if Nat.eqb k' (full_key id (p_lease s)) then Some v else None
+  | _ => p_store s = [] /\ forall k', kget k' (spec_etcd (p_events s)) = None
+  end.
+Proof. exact prun_good. Qed.
+Print Assumptions c15_publisher_unregisters.
+
+(* ... and a subscriber lists the instance iff the publisher is active (its key lying under the prefix). *)
+Theorem c15_publisher_view : forall id v ops u log cops,
+  let s := prun id v ops in
+  let h := Subscribe [] [] [] :: p_events s in
+  In log (subs (run u h)) -> calls_of cops = log ->
+  exists vs, fst (get_values (crun false cops)) = Ok vs /\ NoDup vs /\
+    forall v', In v' vs <-> (p_mode s = PActive /\ u (full_key id (p_lease s)) = true /\ v' = v).
+Proof. exact publisher_view. Qed.
+Print Assumptions c15_publisher_view.
+
+Example c15_publisher_nonvacuous :
+  let s := prun None 7 [OStart; OLose false; OLose true; OPause; OResume; OLose false; OStop] in
+  p_mode s = PStopped /\ p_store s = [] /\ p_next s = 6 /\
+  p_store (prun (Some 5) 7 [OStart; OLose false; OLose true]) = [(10, 3)].
+Proof. vm_compute. repeat split; reflexivity. Qed.
